@@ -1,5 +1,6 @@
 ---- MODULE MC_VolFault ----
-EXTENDS VolFault, TLC, Json
+EXTENDS VolFault, TLC, Json, Mutate
+CONSTANTS Seed, NRand
 VARIABLES done
 M(name, payload) == [name |-> name, size |-> Len(payload), data |-> << Lit(payload) >>, kind |-> Uncompressed]
 Base == << << M(<<97>>, <<11,12,13,14,15>>), M(<<98,98>>, <<21,22>>) >>,
@@ -26,5 +27,7 @@ Next == /\ ~done /\ done' = TRUE
                   IN Emit(<<"index-slack", bi, extra>>, img2, Len(ms))
              \* coordinated: more valid index entries than names (actual name-table length cut to the first name)
              /\ Emit(<<"fewer-names", bi>>, SetBytes(img, 24, Small32(Len(ms[1].name) + 1)), Len(ms))
+        /\ \A r \in 1..NRand : LET bi == 1 + (r % Len(Base))  img == FlatSegs(Layout(Base[bi])) IN
+             Emit(<<"random", Seed, r>>, Mutated(img, Seed * 601 + r), Len(Base[bi]))
 Spec == Init /\ [][Next]_done
 ====
